@@ -261,14 +261,39 @@ def viewOf (z : Option (Normalizer α)) (obs : List (List α)) : List (List α) 
 
 /-! ### `nextObsOf` over the two layers -/
 
+theorem mapTerm_id (f : List α → List α) (hf : ∀ o, f o = o) (ds : List Bool) (is : List (Info α)) :
+    mapTerm f ds is = is := by
+  induction is generalizing ds with
+  | nil => cases ds <;> simp [mapTerm]
+  | cons i is ih =>
+    cases ds with
+    | nil => simp [mapTerm]
+    | cons d ds =>
+      simp only [mapTerm, ih, List.cons.injEq, and_true]
+      cases d
+      · simp
+      · cases i with
+        | mk t tmo => cases t <;> simp [hf]
+
+theorem mapTerm_timeout (f : List α → List α) (ds : List Bool) (is : List (Info α)) :
+    (mapTerm f ds is).map (·.timeout) = is.map (·.timeout) := by
+  induction is generalizing ds with
+  | nil => cases ds <;> simp [mapTerm]
+  | cons i is ih =>
+    cases ds with
+    | nil => simp [mapTerm]
+    | cons d ds =>
+      simp only [mapTerm, List.map_cons, ih, List.cons.injEq, and_true]
+      cases d <;> simp
+
 theorem nextObsOf_dummy (f : List α → List α) (raws : List (RawStep α)) :
     nextObsOf none (postStep f (dummyStep raws)).obs (postStep f (dummyStep raws)).dones
       (postStep f (dummyStep raws)).infos = raws.map (fun r => f r.obs) := by
   simp only [dummyStep, postStep, List.map_map]
   induction raws with
-  | nil => simp [nextObsOf]
+  | nil => simp [nextObsOf, mapTerm]
   | cons r rs ih =>
-    simp only [List.map_cons, nextObsOf, Function.comp]
+    simp only [List.map_cons, nextObsOf, mapTerm, Function.comp]
     rw [ih]
     cases h : r.done <;> simp
 
@@ -278,27 +303,21 @@ theorem nextObsOf_vn (z : Normalizer α) (raws : List (RawStep α))
       (vnStep z (dummyStep raws)).out.infos = raws.map (·.obs) := by
   simp only [dummyStep, vnStep, List.map_map]
   induction raws with
-  | nil => simp [nextObsOf]
+  | nil => simp [nextObsOf, mapTerm]
   | cons r rs ih =>
-    simp only [List.map_cons, nextObsOf, Function.comp]
+    simp only [List.map_cons, nextObsOf, mapTerm]
     rw [ih (fun r' hr' => h r' (List.mem_cons_of_mem _ hr'))]
     cases hd : r.done
     · simp
     · simp [h r (List.mem_cons_self) hd]
 
 theorem postStep_id (f : List α → List α) (hf : ∀ o, f o = o) (vo : VecOut α) : postStep f vo = vo := by
-  have hf' : f = id := funext hf
-  subst hf'
   cases vo with
   | mk obs rews dones infos =>
-    simp only [postStep, List.map_id_fun, id_eq, VecOut.mk.injEq, true_and]
-    induction infos with
-    | nil => rfl
-    | cons i is ih =>
-      simp only [List.map_cons, List.cons.injEq]
-      refine ⟨?_, ih⟩
-      cases i with
-      | mk t tmo => cases t <;> rfl
+    simp only [postStep, mapTerm_id f hf, VecOut.mk.injEq, and_true]
+    have hf' : f = id := funext hf
+    subst hf'
+    simp
 
 theorem map_id' (f : List α → List α) (hf : ∀ o, f o = o) (l : List (List α)) : l.map f = l := by
   have hf' : f = id := funext hf
@@ -388,7 +407,7 @@ theorem body_spec (cfg : Cfg α) (st : St α) (x : StepIn α) (hwf : x.wf cfg = 
     simp only [body, hnz, storeTransition, origObs, hv, viewOf]
     refine ⟨?_, ?_, ?_, ?_, ?_, ?_, ?_, ?_, ?_, ?_, ?_, ?_, ?_⟩
     case refine_2 => exact nextObsOf_dummy cfg.post x.raws
-    all_goals first | trivial | rfl | simp [dummyStep, postStep]
+    all_goals first | trivial | rfl | simp [dummyStep, postStep, mapTerm_timeout]
   | some z =>
     have hv : cfg.vecNormalize = true := by rw [← hz, hnz]; rfl
     have hid := hp hv
@@ -397,7 +416,7 @@ theorem body_spec (cfg : Cfg α) (st : St α) (x : StepIn α) (hwf : x.wf cfg = 
     rw [hfun]
     refine ⟨?_, ?_, ?_, ?_, ?_, ?_, ?_, ?_, ?_, ?_, ?_, ?_, ?_⟩
     case refine_2 => exact nextObsOf_vn z x.raws (hrt z hnz)
-    all_goals first | trivial | rfl | simp [dummyStep, vnStep]
+    all_goals first | trivial | rfl | simp [dummyStep, vnStep, mapTerm_timeout]
 
 /-! ### the loops are folds of the body over a prefix of the stream -/
 
@@ -657,7 +676,7 @@ end Check
 def witnessCfg : Cfg ℚ := ⟨1, .discrete, 0, 1, false, false, true, id⟩
 def witnessNz : Normalizer ℚ := ⟨[some (0, 1)], 1, none, 10⟩
 def witnessCalls : List (Call ℚ) :=
-  [⟨true, 1, [[0]], some witnessNz, [⟨[[0]], none, [⟨[500], 1, true, false, [7]⟩], some witnessNz⟩]⟩]
+  [⟨true, 1, [[0]], some witnessNz, [⟨[[0]], none, [⟨[500], 1, true, false, [7], none⟩], some witnessNz⟩]⟩]
 
 /-- two envs, box actions in `[-2, 6]` with noise, two `learn()` calls (the second without counter reset),
 `VecNormalize`, a truncation in env 1, a termination in env 0, a `terminated ∧ truncated` end in env 1 -/
@@ -665,10 +684,10 @@ def exCfg : Cfg ℚ := ⟨2, .box [-2] [6], 2, 1, false, false, true, id⟩
 def exNz : Normalizer ℚ := ⟨[some (100, 50)], 10, some 2, 10⟩
 def exCalls : List (Call ℚ) :=
   [ ⟨true, 4, [[0], [100]], some exNz,
-      [ ⟨[[2], [6]], some [[1/2], [1/2]], [⟨[1], 1, false, false, []⟩, ⟨[101], 2, false, true, [200]⟩], some exNz⟩,
-        ⟨[[0], [-2]], some [[0], [0]], [⟨[2], 3, true, false, [10]⟩, ⟨[201], -1, false, false, []⟩], some exNz⟩ ]⟩,
+      [ ⟨[[2], [6]], some [[1/2], [1/2]], [⟨[1], 1, false, false, [], none⟩, ⟨[101], 2, false, true, [200], none⟩], some exNz⟩,
+        ⟨[[0], [-2]], some [[0], [0]], [⟨[2], 3, true, false, [10], none⟩, ⟨[201], -1, false, false, [], none⟩], some exNz⟩ ]⟩,
     ⟨false, 2, [[999], [999]], some exNz,
-      [ ⟨[[2], [2]], some [[0], [0]], [⟨[11], 0, false, false, []⟩, ⟨[202], 0, true, true, [300]⟩], some exNz⟩ ]⟩ ]
+      [ ⟨[[2], [2]], some [[0], [0]], [⟨[11], 0, false, false, [], some [2]⟩, ⟨[202], 0, true, true, [300], none⟩], some exNz⟩ ]⟩ ]
 
 /-- `VecNormalize` *below* an observation wrapper that re-orders the coordinates (`VecTransposeImage` over a
 `VecNormalize`d Dict / image env): one env, observations with two coordinates, the wrapper swaps them; statistics
@@ -676,12 +695,13 @@ that normalise nothing (`norm_obs_keys` without the image key) -/
 def wrapCfg : Cfg ℚ := ⟨1, .discrete, 0, 1, false, false, true, List.reverse⟩
 def wrapNz : Normalizer ℚ := ⟨[none, none], 10, none, 10⟩
 def wrapCalls : List (Call ℚ) :=
-  [⟨true, 1, [[1, 2]], some wrapNz, [⟨[[0]], none, [⟨[3, 4], 1, false, false, []⟩], some wrapNz⟩]⟩]
+  [⟨true, 1, [[1, 2]], some wrapNz, [⟨[[0]], none, [⟨[3, 4], 1, false, false, [], none⟩], some wrapNz⟩]⟩]
 
-/-- the same wrapper without `VecNormalize`, with an episode end -/
+/-- the same wrapper without `VecNormalize`, with an episode end; the env reuses its info dict, so at the second
+step the dict still holds the first episode's terminal observation `[3, 4]` -/
 def wrapCfg' : Cfg ℚ := ⟨1, .discrete, 0, 1, false, false, false, List.reverse⟩
 def wrapCalls' : List (Call ℚ) :=
-  [⟨true, 2, [[1, 2]], none, [⟨[[0]], none, [⟨[3, 4], 1, true, false, [5, 6]⟩], none⟩,
-                              ⟨[[1]], none, [⟨[7, 8], 0, false, false, []⟩], none⟩]⟩]
+  [⟨true, 2, [[1, 2]], none, [⟨[[0]], none, [⟨[3, 4], 1, true, false, [5, 6], none⟩], none⟩,
+                              ⟨[[1]], none, [⟨[7, 8], 0, false, false, [], some [3, 4]⟩], none⟩]⟩]
 
 end SB3Verif.Lemmas.OffPolicy
